@@ -23,7 +23,7 @@ STMT = {
     ('dbg_bind',): 'if __debug__: zq = emit("dbgbind")', ('assert_bind',): 'assert (zq := emit("assertbind"))',
     ('use_zq',): 'try: emit(("zq", zq))\nexcept NameError: emit("zq-unbound")',
     ('nl_zq',): '@(lambda f: f())\ndef inner():\n    nonlocal zq\n    zq = "set-by-inner"\n    emit("inner-ran")',
-    ('dbg_global',): 'if __debug__: global zq', ('set_zq',): 'zq = "set-in-block"',
+    ('dbg_yield',): 'if __debug__: yield emit("dbgyield")', ('ann_zq',): 'zq: int', ('dbg_global',): 'if __debug__: global zq', ('set_zq',): 'zq = "set-in-block"',
     ('annval',): 'av: int = emit("annval")', ('annnoval',): 'an: int',
     ('raise0',): 'raise ValueError()', ('raiseargs',): 'raise ValueError("a")', ('raisefrom',): 'raise ValueError() from KeyError()',
     ('raiseuser',): 'raise UserExc()', ('classobj',): 'class Inner(object): emit("inner")', ('other',): 'emit("other")', ('other2',): 'emit("other2")',
@@ -43,9 +43,11 @@ def wrap(ctx, body):
     if ctx in ('module', 'module_top'):
         return body, None
     if ctx == 'function':
-        return 'def fn():\n%s\nemit(("fndoc", fn.__doc__))\ntry: emit(("ret", fn()))%s' % (b1, GUARD), ('func', 'fn')
+        return ('def fn():\n%s\nemit(("fndoc", fn.__doc__))\ntry:\n    fnresult = fn()\n    emit(("ret", "generator" if hasattr(fnresult, "send") else fnresult))%s'
+                % (b1, GUARD)), ('func', 'fn')
     if ctx == 'function_if':
-        return 'def fn():\n    if xflag:\n%s\n    emit("after")\ntry: emit(("ret", fn()))%s' % (b2, GUARD), ('func-if', 'fn')
+        return ('def fn():\n    if xflag:\n%s\n    emit("after")\ntry:\n    fnresult = fn()\n    emit(("ret", "generator" if hasattr(fnresult, "send") else fnresult))%s'
+                % (b2, GUARD)), ('func-if', 'fn')
     if ctx == 'class':
         return 'try:\n    class K:\n%s\n    emit(("cls", sorted(k for k in vars(K) if not k.startswith("__")), K.__doc__))%s' % (b2, GUARD), ('class', 'K')
     if ctx == 'dataclass':
@@ -210,6 +212,8 @@ def classify(st):
     if (isinstance(st, ast.If) and _dbg(st.test) and not st.orelse and len(st.body) == 1 and isinstance(st.body[0], ast.Assign)
             and ast.dump(st.body[0].targets[0]) == ast.dump(ast.Name(id='zq', ctx=ast.Store())) and len(st.body[0].targets) == 1 and _is_emit(st.body[0].value, 'dbgbind')):
         return ['dbg_bind']
+    if isinstance(st, ast.If) and ast.dump(st) == ast.dump(ast.parse('def f():\n ' + STMT[('dbg_yield',)]).body[0].body[0]):
+        return ['dbg_yield']
     if isinstance(st, ast.If) and ast.dump(st) == ast.dump(ast.parse(STMT[('dbg_global',)]).body[0]):
         return ['dbg_global']
     if isinstance(st, ast.Assign) and ast.dump(st) == ast.dump(ast.parse(STMT[('set_zq',)]).body[0]):
@@ -250,6 +254,11 @@ def classify(st):
                 return ['true_is_dbg']
         if not st.orelse and isinstance(t, ast.UnaryOp) and isinstance(t.op, ast.Not) and _dbg(t.operand) and tag == 'notdbg':
             return ['notdbg']
+    if isinstance(st, ast.AnnAssign) and isinstance(st.target, ast.Name) and st.target.id == 'zq' and st.value is None:
+        if isinstance(st.annotation, ast.Name) and st.annotation.id == 'int':
+            return ['ann_zq']
+        if isinstance(st.annotation, ast.Constant) and st.annotation.value == 0:
+            return ['annzero_zq']
     if isinstance(st, ast.AnnAssign) and isinstance(st.target, ast.Name):
         if st.target.id == 'av' and st.value is not None and _is_emit(st.value, 'annval') and isinstance(st.annotation, ast.Name) and st.annotation.id == 'int':
             return ['annval']
